@@ -326,6 +326,21 @@ struct Emitter
         }
         if (isa<OffsetOfExpr>(I))
             O["offsetof"] = true;
+        // names of the named constants a folded expression was built from
+        if (!isa<DeclRefExpr>(I) && !isa<IntegerLiteral>(I)) {
+            struct NC : RecursiveASTVisitor<NC> {
+                json::Array names; unsigned n = 0;
+                bool VisitDeclRefExpr(DeclRefExpr* D) {
+                    if (n < 8 && (isa<VarDecl>(D->getDecl()) || isa<EnumConstantDecl>(D->getDecl()))) {
+                        names.push_back(D->getDecl()->getNameAsString()); ++n;
+                    }
+                    return true;
+                }
+            } nc;
+            nc.TraverseStmt(const_cast<Expr*>(I));
+            if (nc.n)
+                O["names"] = std::move(nc.names);
+        }
         return true;
     }
 
